@@ -5,12 +5,12 @@ CONSTANTS
   Passive = {"p1"}
   InitTok = 1
   Amt = {1}
-  InitBal = 3
+  InitBal = 2
   MaxH = 2
-  MaxTx = 2
-  MaxCoins = 2
-  Kinds = {"xfer", "dep", "wd", "cx", "call", "tok", "fwd", "sst", "pay"}
-INVARIANTS Conservation TokenConservation NoNegative SpentOnce SpentMarked
+  MaxTx = 3
+  MaxCoins = 0
+  Kinds = {"kill", "kfund"}
+INVARIANTS NoUndesignedBurn Conservation TokenConservation NoNegative SpentOnce SpentMarked
 PROPERTIES RejectedIsNoOp NonceCountsExecuted
 VIEW View
 CHECK_DEADLOCK FALSE
